@@ -27,9 +27,9 @@ func init() {
 }
 
 type semapCtx struct {
-	c                                *Ctx
+	c                               *Ctx
 	size, cur, waiters, m, mux, rwR *types.Var
-	wn, wready                       *types.Var
+	wn, wready                      *types.Var
 }
 
 func runC01(c *Ctx) {
